@@ -569,7 +569,18 @@ func (c *c39State) evilRelayOp(rt *rapid.T, w *nsWorld, h *nsHist) {
 		if target != nil {
 			var direct []*HostInfo
 			for _, t := range target.allTunnels() {
-				if rm := t.GetRemote(); rm.IsValid() && rm != r.udpAddr {
+				// a tunnel with somebody ELSE than the relay (judged by the authenticated overlay address: the
+				// relay's own tunnel may have roamed to another port of the relay's host and back), reached
+				// at an underlay address that is not the relay's
+				toRelay := false
+				for _, a := range t.vpnAddrs {
+					for _, ra := range w.specs[c.relayIdx].nets {
+						if a == ra.Addr() {
+							toRelay = true
+						}
+					}
+				}
+				if rm := t.GetRemote(); rm.IsValid() && rm.Addr() != r.udpAddr.Addr() && !toRelay {
 					direct = append(direct, t)
 				}
 			}
